@@ -21,17 +21,23 @@
 (* API, Push then wraps it.  Nothing below the top is ever written.        *)
 (*                                                                         *)
 (* Deviations of the code from the property are behind constants (TRUE =   *)
-(* the code as it is):                                                     *)
+(* the code as it is; FALSE = a repaired design that TLC checks against    *)
+(* the property, worded as the smallest change of the code that has it):   *)
 (*   TidFromChangesOnly  tids come from the changes storage's clock and    *)
-(*                       last tid only (F10)                               *)
+(*                       last tid only (F10) | tpc_begin passes            *)
+(*                       tid = newTid(max(base last, changes last))        *)
 (*   UndoUncreates       undoing the first change made to an object of a   *)
 (*                       lower layer writes an "object does not exist"     *)
-(*                       record into the changes                           *)
+(*                       record into the changes | ... and the demo        *)
+(*                       storage stores the state from below on top of it  *)
 (*   OidProbeByLoad      new_oid decides presence by loading the current   *)
 (*                       revision (an un-created object does not load)     *)
+(*                       | by asking for any record (history)              *)
 (*   PackAsCode          pack() reads an attribute that only exists when   *)
-(*                       the demo storage created its changes itself, and  *)
-(*                       then garbage-collects the changes alone           *)
+(*                       the demo storage created its changes itself       *)
+(*                       (Temporary), and then garbage-collects the        *)
+(*                       changes alone | the attribute always exists and   *)
+(*                       a demo storage over a base never collects garbage *)
 (* `obs` (the answer of every query, transcription) and `dev` (where obs   *)
 (* differs from the meaning ObsTable(base \o changes), and why) are        *)
 (* functions of the other variables; they are printed with every state.    *)
